@@ -40,6 +40,8 @@ impl Tok {
                 '=' => "Equals".into(),
                 '+' => "Plus".into(),
                 '!' => "ExclamationPoint".into(),
+                '{' => "LeftBrace".into(),
+                '}' => "RightBrace".into(),
                 c => format!("Punct({c})"),
             },
         }
@@ -209,7 +211,7 @@ fn lex_line(text: &str, file: &str, line: u32, col0: u32) -> Result<Vec<Tok>, St
                 line,
                 col,
             });
-        } else if matches!(c, ';' | '(' | ')' | ',' | '=' | '+' | '!') {
+        } else if matches!(c, ';' | '(' | ')' | ',' | '=' | '+' | '!' | '{' | '}') {
             out.push(Tok {
                 atom: Atom::Punct(c),
                 file: file.to_string(),
